@@ -144,6 +144,12 @@ pub fn drive(t: &mut Tracer, tier: &str, seed: u64) {
             { let (k, mm) = (key.sk.clone(), m.clone()); call(t, &mut n, "sm2.sign_msg", "ladder", l, move || e(k.sign(None, &mm))); }
         }
     }
+    // --- SM2 identities around the ENTL limit (a 16-bit BIT count: 8191 bytes is the longest legal identity) and around 2^16 bytes: sign and verify must answer ---
+    for idlen in [8190usize, 8191, 8192, 8193, 16384, 65535, 65536, 65537] {
+        let id: &'static str = Box::leak(std::iter::repeat('i').take(idlen).collect::<String>().into_boxed_str());
+        { let p = pk.clone(); call(t, &mut n, "sm2.verify_longid", "long-id", idlen, move || { let _ = p.verify(Some(id), b"msg", &[7u8; 64]); Ok::<(), String>(()) }); }
+        { let k = key.sk.clone(); call(t, &mut n, "sm2.sign_longid", "long-id", idlen, move || { let _ = k.sign(Some(id), b"msg"); Ok::<(), String>(()) }); }
+    }
     // --- degenerate values that the constructors accept: the master key ke = N - H1(ID || hid) (Q_B = [h1]P1 + Ppub-e is the point at infinity, so are
     //     C1 and R); the point at infinity as a received R or as the signature point S.  Every call must terminate (ok or err). ---
     {
